@@ -24,14 +24,18 @@ RULE = ("values generated recursively (depth <= 6) from the property's domain: N
         "dict / None) and the bare library, and end-to-end through a real Proxy and Daemon (positions arg, kwarg, nested, result, "
         "batch result, streamed item; compression on/off; payload sizes swept across the 100-byte threshold). A case is non-trivial "
         "when the real serializer delivered a value (no exception) that contains at least one container or non-core type, or when it "
-        "failed after the dumps phase; distinct = distinct (serializer, path, canonical input)")
+        "failed after the dumps phase; distinct = distinct (serializer, path, canonical input). Histories: sequences of equal-but-"
+        "differently-written values (Decimal exponent / trailing-zero / negative-zero forms, 0 / 0.0 / -0.0 / False, 1 / 1.0 / True, one "
+        "uuid from several constructors, str / bytes / tuple and their subclasses), plain and inside containers, converted in one process "
+        "and compared item by item with a pristine forked process; a history prefix is non-trivial once converted; distinct = distinct prefix")
 ASSUMPTIONS = ["the type mapping of serpent / marshal / json / msgpack / struct / base64 / datetime.isoformat written down in "
                "PyroModel/Values.lean (enc/dec with hooks=false = libMap) is what the installed libraries do (validated by suite 'lib')",
                "int(str(n)) == n in CPython (proved for the model's decimal codec)",
                "zlib.decompress(zlib.compress(p)) == p (C06)",
                "no custom class<->dict converters are registered (SerializerBase registries empty), SERPENT_BYTES_REPR=False"]
 TRUSTED = ["props/c01_vals.py: Python value <-> token encoding and the canonicaliser (sets and dict items sorted, NaN -> one token)",
-           "props/c01_e2e.py: in-memory duplex socket standing for a connected socket pair"]
+           "props/c01_e2e.py: in-memory duplex socket standing for a connected socket pair",
+           "props/c01_hist.py: the pristine helper process (imports Pyro5, forks one child per reference conversion)"]
 
 SERS = ["serpent", "marshal", "json", "msgpack"]
 
@@ -287,6 +291,8 @@ def correspondence(ctx):
 def oracle(ctx):
     common.repo_on_path()
     from props import c01_e2e
+    from props import c01_hist
+    c01_hist.run(ctx)            # first: before this process has converted much else in oracle mode
     c01_e2e.serializer_oracle(ctx)
     c01_e2e.e2e_oracle(ctx)
     if not ctx.search_mode:
@@ -302,4 +308,7 @@ def replay(ctx, case):
     c = f.get("case") or {}
     if not c:
         return 0
+    if "history" in c:
+        from props import c01_hist
+        return c01_hist.replay(c)
     return c01_e2e.replay_case(c)
